@@ -20,6 +20,7 @@ import (
 	"github.com/beevik/etree"
 	schemaClient "github.com/sdcio/data-server/pkg/datastore/clients/schema"
 	"github.com/sdcio/data-server/pkg/datastore/target/netconf"
+	nctypes "github.com/sdcio/data-server/pkg/datastore/target/netconf/types"
 	"github.com/sdcio/data-server/pkg/tree"
 	jsonImporter "github.com/sdcio/data-server/pkg/tree/importer/json"
 	xmlImporter "github.com/sdcio/data-server/pkg/tree/importer/xml"
@@ -85,6 +86,11 @@ type Case struct {
 	Deletes [][]PElem `json:"deletes,omitempty"`
 	// xml / import
 	Doc string `json:"doc,omitempty"`
+	// ncreply: what the NETCONF device answers to edit-config (document; "" = empty reply), whether commit / discard fail, the commit datastore
+	Reply     string `json:"reply,omitempty"`
+	CommitErr string `json:"commit_err,omitempty"`
+	DiscardErr bool  `json:"discard_err,omitempty"`
+	Running   bool   `json:"running,omitempty"`
 }
 
 // ---------------------------------------------------------------- generators
@@ -337,9 +343,65 @@ func genXML(t *rapid.T, label string) string {
 	return s
 }
 
+// genNCReply: an rpc-reply as a NETCONF device may send it for an edit-config: ok, rpc-errors of any severity with
+// any subset of the optional children (RFC 6241 4.3: only error-type, error-tag and error-severity are mandatory),
+// prefixed element names, text where elements are expected, no document at all.
+func genNCReply(t *rapid.T) string {
+	switch rapid.IntRange(0, 11).Draw(t, "reply-kind") {
+	case 0:
+		return ""
+	case 1:
+		return "<rpc-reply><ok/></rpc-reply>"
+	case 2:
+		return rapid.SampledFrom([]string{"<rpc-reply/>", "<ok/>", "<rpc-error/>", "<rpc-reply><rpc-error/></rpc-reply>", "<rpc-reply>text</rpc-reply>",
+			"<rpc-reply><rpc-error><error-severity/></rpc-error></rpc-reply>", "<rpc-reply><rpc-error><error-severity>warning</error-severity></rpc-error><ok/></rpc-reply>",
+			"<nc:rpc-reply xmlns:nc=\"urn:ietf:params:xml:ns:netconf:base:1.0\"><nc:rpc-error><nc:error-severity>error</nc:error-severity></nc:rpc-error></nc:rpc-reply>"}).Draw(t, "reply-raw")
+	}
+	doc := etree.NewDocument()
+	pfx := rapid.SampledFrom([]string{"", "", "", "nc:"}).Draw(t, "reply-prefix")
+	root := doc.CreateElement(pfx + "rpc-reply")
+	if pfx != "" {
+		root.CreateAttr("xmlns:nc", "urn:ietf:params:xml:ns:netconf:base:1.0")
+	}
+	for i, n := 0, rapid.IntRange(0, 3).Draw(t, "reply-nerr"); i < n; i++ {
+		e := root.CreateElement(pfx + "rpc-error")
+		for _, child := range []string{"error-type", "error-tag", "error-severity", "error-app-tag", "error-path", "error-message", "error-info"} {
+			if rapid.IntRange(0, 2).Draw(t, "reply-has-"+child) == 0 {
+				continue
+			}
+			c := e.CreateElement(pfx + child)
+			switch child {
+			case "error-severity":
+				c.SetText(rapid.SampledFrom([]string{"warning", "warning", "error", "error", "", "WARNING", "info"}).Draw(t, "reply-sev"))
+			case "error-info":
+				if rapid.Bool().Draw(t, "reply-info-child") {
+					c.CreateElement("bad-element").SetText(genStr(t, "reply-bad"))
+				}
+			default:
+				if rapid.IntRange(0, 4).Draw(t, "reply-empty-"+child) != 0 {
+					c.SetText(genStr(t, "reply-"+child))
+				}
+			}
+			if rapid.IntRange(0, 9).Draw(t, "reply-dup-"+child) == 0 {
+				e.CreateElement(pfx + child).SetText(genStr(t, "reply-dup"))
+			}
+		}
+	}
+	if rapid.Bool().Draw(t, "reply-ok") {
+		root.CreateElement(pfx + "ok")
+	}
+	r, _ := doc.WriteToString()
+	return r
+}
+
 func gen(t *rapid.T) *Case {
-	c := &Case{Target: rapid.SampledFrom([]string{"path", "set", "set", "set", "get", "notif", "notif", "devsync", "xml", "import-xml", "import-json"}).Draw(t, "target")}
+	c := &Case{Target: rapid.SampledFrom([]string{"path", "set", "set", "set", "get", "notif", "notif", "devsync", "xml", "import-xml", "import-json", "ncreply"}).Draw(t, "target")}
 	switch c.Target {
+	case "ncreply":
+		c.Reply = genNCReply(t)
+		c.CommitErr = rapid.SampledFrom([]string{"", "", "", "operation failed: <rpc-error><error-severity>error</error-severity></rpc-error>", "EOF", "x"}).Draw(t, "commit-err")
+		c.DiscardErr = rapid.IntRange(0, 3).Draw(t, "discard-err") == 0
+		c.Running = rapid.Bool().Draw(t, "commit-running")
 	case "path":
 		if rapid.Bool().Draw(t, "from-struct") {
 			c.PathStr = "/" + utils.ToXPath(toPath(genPath(t, "ps")), false)
@@ -723,6 +785,41 @@ func Exec(c *Case) (nontrivial bool, labels []string, fail *vlib.Failure) {
 			}
 		})
 		return nontrivial, lab, f
+	case "ncreply":
+		// one valid change through the REAL NETCONF target; the driver answers with the generated reply
+		scb := schemaClient.NewSchemaClientBound(vlib.SchemaRef(), env.SchemaClient)
+		drv := &replyDriver{c: c}
+		commit := "candidate"
+		if c.Running {
+			commit = "running"
+		}
+		sbi := &config.SBI{Type: "netconf", Address: "127.0.0.1", Port: 1, ConnectRetry: 24 * time.Hour, Timeout: time.Second,
+			NetconfOptions: &config.SBINetconfOptions{CommitDatastore: commit}}
+		h, err := vlib.NewHistEnv(ctx, env, &vlib.HistCase{Universe: "plain", Palette: []string{"a", "b", "c"}}, vlib.HistEnvOpts{WrapTarget: func(dev *vlib.Device) target.Target {
+			return &ncOnly{Target: target.NewNCTargetWithDriver("c20nc", sbi, scb, drv), dev: dev}
+		}})
+		if err != nil {
+			harnessErr(err)
+		}
+		defer h.DS.Stop()
+		nontrivial = strings.Contains(c.Reply, "rpc-error")
+		f := withDeadline("TransactionSet over the NETCONF target", func() {
+			ri := vlib.ResolvedIntent{Name: "own0", Kind: "set", Prio: 10, Form: "typed", Explicit: vlib.Conf{"/plain/descr": "v1", "/plain/l1[name=a]/mtu": "1500"}}
+			req, err := vlib.BuildIntentRequest(ri)
+			if err != nil {
+				harnessErr(err)
+			}
+			rsp, err := h.SetRequest("t1", []*sdcpb.TransactionIntent{req}, nil, false)
+			switch {
+			case err != nil || len(vlib.IntentErrorsOf(rsp)) > 0:
+				lab = append(lab, "nc-set-refused")
+			default:
+				lab = append(lab, "nc-set-accepted")
+				_ = h.DS.TransactionCancel(ctx, "t1")
+			}
+		})
+		lab = append(lab, fmt.Sprintf("nc-driver-calls-%d", min(drv.calls, 4)))
+		return nontrivial, lab, f
 	case "xml":
 		scb := schemaClient.NewSchemaClientBound(vlib.SchemaRef(), env.SchemaClient)
 		doc := etree.NewDocument()
@@ -796,3 +893,73 @@ func baseDS(ctx context.Context) *vlib.HistEnv {
 func TestProp(t *testing.T)   { prop.Check(t) }
 func TestReplay(t *testing.T) { prop.Replay(t) }
 func TestKnown(t *testing.T)  { prop.Known(t) }
+
+
+// replyDriver answers the NETCONF operations of the real target with the case's reply.
+type replyDriver struct {
+	c     *Case
+	calls int
+}
+
+func (d *replyDriver) reply() (*nctypes.NetconfResponse, error) {
+	d.calls++
+	// as the scrapligo wrapper of data-server does: the reply is parsed into a document (always present); a reply
+	// with an rpc-error that is not a plain warning is an error
+	doc := etree.NewDocument()
+	if err := doc.ReadFromString(d.c.Reply); err != nil {
+		return nil, fmt.Errorf("operation failed: %s", d.c.Reply)
+	}
+	nerr, nwarn := 0, 0
+	for _, e := range doc.FindElements("//*") {
+		if e.Tag != "rpc-error" {
+			continue
+		}
+		sev := e.SelectElement("error-severity")
+		switch {
+		case e.Space != "":
+			nerr++
+		case sev != nil && sev.Text() == "warning":
+			nwarn++
+		default:
+			nerr++
+		}
+	}
+	if nerr > 0 {
+		return nil, fmt.Errorf("operation failed: %s", d.c.Reply)
+	}
+	return nctypes.NewNetconfResponse(doc), nil
+}
+
+func (d *replyDriver) Get(string) (*nctypes.NetconfResponse, error)               { return d.reply() }
+func (d *replyDriver) GetConfig(string, string) (*nctypes.NetconfResponse, error) { return d.reply() }
+func (d *replyDriver) EditConfig(string, string) (*nctypes.NetconfResponse, error) { return d.reply() }
+func (d *replyDriver) Lock(string) (*nctypes.NetconfResponse, error)              { return d.reply() }
+func (d *replyDriver) Unlock(string) (*nctypes.NetconfResponse, error)            { return d.reply() }
+func (d *replyDriver) Validate(string) (*nctypes.NetconfResponse, error)          { return d.reply() }
+func (d *replyDriver) Commit() error {
+	d.calls++
+	if d.c.CommitErr != "" {
+		return fmt.Errorf("%s", d.c.CommitErr)
+	}
+	return nil
+}
+func (d *replyDriver) Discard() error {
+	d.calls++
+	if d.c.DiscardErr {
+		return fmt.Errorf("operation failed: discard refused")
+	}
+	return nil
+}
+func (d *replyDriver) Close() error  { return nil }
+func (d *replyDriver) IsAlive() bool { return true }
+
+// ncOnly: the real NETCONF target for Set, the recording device for reads
+type ncOnly struct {
+	target.Target
+	dev *vlib.Device
+}
+
+func (t *ncOnly) Get(ctx context.Context, req *sdcpb.GetDataRequest) (*sdcpb.GetDataResponse, error) {
+	return t.dev.Get(ctx, req)
+}
+func (t *ncOnly) Sync(ctx context.Context, c *config.Sync, ch chan *target.SyncUpdate) {}
